@@ -128,6 +128,7 @@ def run(ctx):
     d1b(db, rep)
     d2(db, rep)
     scalar_operand_checked(db, rep, "D1h-SCALAR-OPERAND-CHECKED")
+    d3c_unroll_bounded(db, rep)
 
     # ---- D3 ---------------------------------------------------------------
     n = loops.classify_and_judge(db, libfuncs, rep, rule="D3-R-LOOP")
@@ -135,6 +136,52 @@ def run(ctx):
     rep.extra["loops_classified"] = n
     rep.extra["equality_exit_loops"] = ne
     rep.floor("D3-R-LOOP", 800)
+
+
+def d3c_unroll_bounded(db, rep, rule="D3c-UNROLL-BOUNDED"):
+    """D3c: "returns a result code in bounded time".  A loop of a code generator that runs once per ELEMENT the program was
+    declared for (program->constant_n / constant_m, any int the application or the .orc text chooses) emits code on each
+    iteration: compile time and memory grow with the VALUE of n, and at 2^31 elements orc_realloc fails and aborts.  Such a loop
+    is acceptable only under a must-fact that bounds the count by a constant (the back end's unrolling cutoff)."""
+    from flow import upper_bound, reaching_defs
+    MAG = ("constant_n", "constant_m")
+    n = 0
+    for f in db.all_functions():
+        if not f.relfile.startswith("orc/") or f.body is None:
+            continue
+        if not any(x.k == "MemberExpr" and x.name in MAG for x in f.walk()):
+            continue
+        fc = None
+        for lp in [x for x in f.walk() if x.k in ("WhileStmt", "ForStmt", "DoStmt")]:
+            cond = lp.c[0] if lp.k == "WhileStmt" else (lp.c[1] if lp.k == "ForStmt" and len(lp.c) > 1 else (lp.c[1] if lp.k == "DoStmt" and len(lp.c) > 1 else None))
+            if cond is None or strip_casts(cond) is None or strip_casts(cond).v is not None:
+                continue
+            names = set()
+            for y in cond.walk():
+                if y.k == "MemberExpr" and y.name in MAG:
+                    names.add(access_path(y))
+                if y.k == "DeclRefExpr" and y.get("dk") == "local":
+                    for d in reaching_defs(f, y.name, lp):
+                        src = d.c[1] if d.k == "BinaryOperator" else (d.c[0] if d.c else None)
+                        if src is not None and any(z.k == "MemberExpr" and z.name in MAG for z in src.walk()):
+                            names.add(y.name)
+                            names |= {access_path(z) for z in src.walk() if z.k == "MemberExpr" and z.name in MAG}
+            if not names:
+                continue
+            fc = fc or Facts(f)
+            conds = fc.conds(lp)
+            ub = [upper_bound(conds, nm) for nm in names if nm]
+            ub = [u for u in ub if u is not None]
+            n += 1
+            rep.saw(f)
+            rep.check(bool(ub), rule, where(f), "loop@%s:%s" % (f.name, "/".join(sorted(x for x in names if x))),
+                      "the per-element loop runs only where the element count is known to be <= %s" % (min(ub) if ub else "?"),
+                      "%s repeats code generation once per declared element (`%s`, line %s) without an upper bound on the element count: `.n 2000000000` makes the "
+                      "compile run for minutes, allocate gigabytes and finally abort in orc_realloc, instead of returning a result" %
+                      (f.name, unparse(cond)[:60], lp.line), line=lp.line)
+    if n < 1:
+        raise AnalysisBroken("no per-element code generation loop (bounded by constant_n) found")
+    return n
 
 
 def scalar_operand_checked(db, rep, rule):
